@@ -1,6 +1,4 @@
-(* C35 proofs, part 6: memory-budget accounting, for every interleaving.  As long as no init closure
-   failed after the charge ([gleak]) and no residency change happened inside another thread's clear()
-   window ([grace]), the Cache-pool counter equals
+(* C35 proofs, part 6: memory-budget accounting, for every interleaving: the Cache-pool counter equals
        c0 + PAGE_SIZE * (resident pages) + (what the threads inside an operation still owe / hold),
    hence exactly c0 + PAGE_SIZE * len() whenever no operation is in progress. *)
 From Coq Require Import ZArith List Bool Arith Lia.
@@ -78,172 +76,97 @@ Qed.
 
 (* ------------------------------------------------------------------ what a thread inside an operation holds or owes *)
 Definition cont_charge (c : cont) : Z := match c with KInit _ => PS | _ => 0 end.
-Definition contrib (L : list Z) (p : pcT) : Z :=
+Definition contrib (p : pcT) : Z :=
   match p with
-  | PFull _ | PInit _ => PS
-  | PRel0 n c | PRel1 n _ c => n + cont_charge c
-  | PClSh i acc => PS * (acc - len_from L i)
+  | PFull _ | PInit _ => PS                    (* charged, entry not inserted yet *)
+  | PRel0 n c | PRel1 n _ c => n + cont_charge c   (* a release in flight, plus the charge kept across it *)
+  | PClSh _ acc => PS * acc                    (* clear(): pages removed so far, released at the end *)
   | _ => 0
   end.
-Definition clear_ok (L : list Z) (p : pcT) : Prop :=
+Definition pc_ok (p : pcT) : Prop :=
   match p with
-  | PClLen i acc => acc = len_upto L i
-  | PCl502 acc => acc = zsum L
-  | PClSh i acc => len_from L i <= acc
+  | PClSh _ acc => 0 <= acc
   | PRel0 n _ | PRel1 n _ _ => 0 <= n
   | _ => True
   end.
-Definition tsum (L : list Z) (ths : list (nat * thread)) : Z :=
-  fold_right (fun p a => contrib L (pc (snd p)) + a) 0 ths.
+Definition tsum (ths : list (nat * thread)) : Z :=
+  fold_right (fun p a => contrib (pc (snd p)) + a) 0 ths.
 
-Lemma contrib_nonneg L p : clear_ok L p -> 0 <= contrib L p.
+Lemma contrib_nonneg p : pc_ok p -> 0 <= contrib p.
 Proof.
-  assert (P := PS_pos). destruct p; cbn [contrib clear_ok]; intros H; try lia.
-  - destruct c; cbn [cont_charge]; lia.
-  - destruct c; cbn [cont_charge]; lia.
-  - nia.
+  assert (P := PS_pos). destruct p; cbn [contrib pc_ok]; intros H; try lia.
+  all: try (destruct c; cbn [cont_charge]; lia).
+  all: try nia.
 Qed.
 
-Lemma tsum_lset L L' ths t th th' :
-  NoDup (map fst ths) -> lget ths t = Some th ->
-  (forall u thu, In (u, thu) ths -> u <> t -> contrib L' (pc thu) = contrib L (pc thu)) ->
-  tsum L' (lset ths t th') = tsum L ths - contrib L (pc th) + contrib L' (pc th').
+Lemma tsum_lset ths t th th' :
+  lget ths t = Some th -> tsum (lset ths t th') = tsum ths - contrib (pc th) + contrib (pc th').
 Proof.
-  induction ths as [|[u w] r IH]; cbn [lget lset map fst]; [discriminate|].
-  intros Hnd Hg Hfr. inversion Hnd as [|? ? Hnotin Hnd']; subst.
-  destruct (Nat.eqb u t) eqn:E.
-  - apply Nat.eqb_eq in E. subst u. inversion Hg; subst w. cbn [tsum fold_right snd].
-    fold (tsum L r). fold (tsum L' r).
-    assert (Q : tsum L' r = tsum L r).
-    { clear -Hfr Hnotin. induction r as [|[v x] r IH]; [reflexivity|]. cbn [tsum fold_right snd]. fold (tsum L r). fold (tsum L' r).
-      rewrite IH.
-      - rewrite (Hfr v x); [reflexivity | right; left; reflexivity |]. intros ->. apply Hnotin. left. reflexivity.
-      - intros Hin. apply Hnotin. right. exact Hin.
-      - intros v' x' Hin Hne. apply (Hfr v' x'); [|assumption]. destruct Hin as [Hin|Hin]; [left; assumption | right; right; assumption]. }
-    rewrite Q. lia.
-  - apply Nat.eqb_neq in E. cbn [tsum fold_right snd]. fold (tsum L r). fold (tsum L' (lset r t th')).
-    rewrite (IH Hnd' Hg); [|intros v x Hin Hne; apply (Hfr v x); [right; assumption | assumption]].
-    rewrite (Hfr u w); [lia | left; reflexivity | assumption].
+  induction ths as [|[u w] r IH]; cbn [lget lset]; [discriminate|].
+  destruct (Nat.eqb u t) eqn:E; intros Hg.
+  - inversion Hg; subst w. cbn [tsum fold_right snd]. fold (tsum r). lia.
+  - cbn [tsum fold_right snd]. fold (tsum r). fold (tsum (lset r t th')). rewrite (IH Hg). lia.
 Qed.
 
-Lemma tsum_ge L ths t th :
-  (forall u thu, In (u, thu) ths -> 0 <= contrib L (pc thu)) -> lget ths t = Some th -> contrib L (pc th) <= tsum L ths.
+Lemma tsum_ge ths t th :
+  (forall u thu, In (u, thu) ths -> 0 <= contrib (pc thu)) -> lget ths t = Some th -> contrib (pc th) <= tsum ths.
 Proof.
   induction ths as [|[u w] r IH]; cbn [lget]; [discriminate|]. intros Hnn Hg.
-  cbn [tsum fold_right snd]. fold (tsum L r).
-  assert (Hr : 0 <= tsum L r).
-  { clear -Hnn. induction r as [|[v x] r IH]; cbn [tsum fold_right snd]; [lia|]. fold (tsum L r).
-    assert (0 <= contrib L (pc x)) by (apply (Hnn v x); right; left; reflexivity).
-    assert (0 <= tsum L r) by (apply IH; intros v' x' Hin; apply (Hnn v' x'); destruct Hin as [Hin|Hin]; [left; assumption | right; right; assumption]). lia. }
+  cbn [tsum fold_right snd]. fold (tsum r).
+  assert (Hr : 0 <= tsum r).
+  { clear -Hnn. induction r as [|[v x] r IH]; cbn [tsum fold_right snd]; [lia|]. fold (tsum r).
+    assert (0 <= contrib (pc x)) by (apply (Hnn v x); right; left; reflexivity).
+    assert (0 <= tsum r) by (apply IH; intros v' x' Hin; apply (Hnn v' x'); destruct Hin as [Hin|Hin]; [left; assumption | right; right; assumption]). lia. }
   destruct (Nat.eqb u t).
   - inversion Hg; subst w. lia.
-  - assert (0 <= contrib L (pc w)) by (apply (Hnn u w); left; reflexivity).
-    assert (contrib L (pc th) <= tsum L r) by (apply IH; [intros v x Hin; apply (Hnn v x); right; assumption | assumption]). lia.
+  - assert (0 <= contrib (pc w)) by (apply (Hnn u w); left; reflexivity).
+    assert (contrib (pc th) <= tsum r) by (apply IH; [intros v x Hin; apply (Hnn v x); right; assumption | assumption]). lia.
 Qed.
 
-Lemma tsum_idle L ths : (forall u thu, In (u, thu) ths -> pc thu = PIdle) -> tsum L ths = 0.
+Lemma tsum_idle ths : (forall u thu, In (u, thu) ths -> pc thu = PIdle) -> tsum ths = 0.
 Proof.
-  induction ths as [|[u w] r IH]; intros H; cbn [tsum fold_right snd]; [reflexivity|]. fold (tsum L r).
+  induction ths as [|[u w] r IH]; intros H; cbn [tsum fold_right snd]; [reflexivity|]. fold (tsum r).
   rewrite (H u w) by (left; reflexivity). rewrite IH by (intros v x Hin; apply (H v x); right; assumption). reflexivity.
 Qed.
 
-Lemma map_fst_lset {L} (l : list (nat * L)) t v v0 : lget l t = Some v0 -> map fst (lset l t v) = map fst l.
-Proof.
-  induction l as [|[k w] r IH]; cbn [lget lset map fst]; [discriminate|].
-  destruct (Nat.eqb k t) eqn:E; intros H; cbn [map fst]; [reflexivity | f_equal; apply IH; exact H].
-Qed.
-
-Lemma In_lget {L} (l : list (nat * L)) t v : NoDup (map fst l) -> In (t, v) l -> lget l t = Some v.
-Proof.
-  induction l as [|[k w] r IH]; cbn [map fst lget]; intros Hnd Hin; [contradiction|].
-  inversion Hnd as [|? ? Hnotin Hnd']; subst. destruct Hin as [Hin|Hin].
-  - inversion Hin; subst. rewrite Nat.eqb_refl. reflexivity.
-  - destruct (Nat.eqb k t) eqn:E; [|apply IH; assumption].
-    apply Nat.eqb_eq in E. subst k. exfalso. apply Hnotin. apply in_map_iff. exists (t, v). split; [reflexivity | assumption].
-Qed.
-
-Lemma In_lset_strong {L} (l : list (nat * L)) t v v0 x :
-  NoDup (map fst l) -> lget l t = Some v0 -> In x (lset l t v) -> x = (t, v) \/ (In x l /\ fst x <> t).
-Proof.
-  induction l as [|[k w] r IH]; cbn [lget lset map fst]; [discriminate|]. intros Hnd Hg Hin.
-  inversion Hnd as [|? ? Hnotin Hnd']; subst. destruct (Nat.eqb k t) eqn:E.
-  - apply Nat.eqb_eq in E. subst k. destruct Hin as [Hin|Hin]; [left; auto|].
-    right. split; [right; assumption|]. intros Hx. apply Hnotin. apply in_map_iff. exists x. split; assumption.
-  - apply Nat.eqb_neq in E. destruct Hin as [Hin|Hin].
-    + right. subst x. split; [left; reflexivity | exact E].
-    + destruct (IH Hnd' Hg Hin) as [Hx|(Hx & Hne)]; [left; assumption | right; split; [right; assumption | assumption]].
-Qed.
-
-(* threads other than t are outside the window at shard j *)
-Lemma covered_false ths t j u thu :
-  covered ths t j = false -> In (u, thu) ths -> u <> t -> in_window (pc thu) j = false.
-Proof.
-  unfold covered. intros H Hin Hne.
-  destruct (in_window (pc thu) j) eqn:E; [|reflexivity].
-  assert (Q : existsb (fun p : nat * thread => negb (Nat.eqb (fst p) t) && in_window (pc (snd p)) j) ths = true).
-  { apply existsb_exists. exists (u, thu). split; [assumption|]. cbn [fst snd]. rewrite E.
-    apply Nat.eqb_neq in Hne. rewrite Hne. reflexivity. }
-  congruence.
-Qed.
-
-Lemma frame_out_of_window L j y p :
-  in_window p j = false -> contrib (set_nth L j y) p = contrib L p /\ (clear_ok L p -> clear_ok (set_nth L j y) p).
-Proof.
-  destruct p; cbn [in_window contrib clear_ok]; intros H; try (split; [reflexivity | auto]); try discriminate.
-  - apply Nat.ltb_ge in H. unfold len_upto. rewrite firstn_set_nth_ge by assumption. auto.
-  - apply Nat.leb_gt in H. unfold len_from. rewrite skipn_set_nth_lt by assumption. auto.
-Qed.
-
 (* ------------------------------------------------------------------ the invariant *)
-Definition acct_body (c0 : Z) (s : st) : Prop :=
-  used s = c0 + PS * zsum (lens (shs s)) + tsum (lens (shs s)) (thr s) /\
-  forall u thu, In (u, thu) (thr s) -> clear_ok (lens (shs s)) (pc thu).
-Definition acct (c0 : Z) (s : st) : Prop := gleak s = false -> grace s = false -> acct_body c0 s.
+Definition acct (c0 : Z) (s : st) : Prop :=
+  used s = c0 + PS * zsum (lens (shs s)) + tsum (thr s) /\
+  forall u thu, In (u, thu) (thr s) -> pc_ok (pc thu).
 
 (* a step of t that leaves all shard lengths alone *)
 Lemma acct_same c0 s t th th' ss' used' :
-  NoDup (map fst (thr s)) -> lget (thr s) t = Some th -> acct_body c0 s ->
+  lget (thr s) t = Some th -> acct c0 s ->
   lens ss' = lens (shs s) ->
-  used' - used s = contrib (lens (shs s)) (pc th') - contrib (lens (shs s)) (pc th) ->
-  clear_ok (lens (shs s)) (pc th') ->
-  used' = c0 + PS * zsum (lens ss') + tsum (lens ss') (lset (thr s) t th') /\
-  forall u thu, In (u, thu) (lset (thr s) t th') -> clear_ok (lens ss') (pc thu).
+  used' - used s = contrib (pc th') - contrib (pc th) ->
+  pc_ok (pc th') ->
+  used' = c0 + PS * zsum (lens ss') + tsum (lset (thr s) t th') /\
+  forall u thu, In (u, thu) (lset (thr s) t th') -> pc_ok (pc thu).
 Proof.
-  intros Hnd Hth (HA & HB) HL Hu Hc. rewrite HL. split.
-  - rewrite (tsum_lset _ _ _ _ _ th' Hnd Hth) by reflexivity. lia.
+  intros Hth (HA & HB) HL Hu Hc. rewrite HL. split.
+  - rewrite (tsum_lset _ _ _ th' Hth). lia.
   - intros u thu Hin. apply In_lset in Hin. destruct Hin as [Hin|Hin]; [inversion Hin; subst; exact Hc | eapply HB; eauto].
 Qed.
 
-(* a step of t that changes the length of shard j from x to y, outside every other thread's window *)
+(* a step of t that changes the length of shard j from x to y *)
 Lemma acct_len c0 s t th th' ss' used' j x y :
-  NoDup (map fst (thr s)) -> lget (thr s) t = Some th -> acct_body c0 s ->
+  lget (thr s) t = Some th -> acct c0 s ->
   nth_error (lens (shs s)) j = Some x -> lens ss' = set_nth (lens (shs s)) j y ->
-  covered (thr s) t j = false ->
-  used' - used s = PS * (y - x) + contrib (lens ss') (pc th') - contrib (lens (shs s)) (pc th) ->
-  clear_ok (lens ss') (pc th') ->
-  used' = c0 + PS * zsum (lens ss') + tsum (lens ss') (lset (thr s) t th') /\
-  forall u thu, In (u, thu) (lset (thr s) t th') -> clear_ok (lens ss') (pc thu).
+  used' - used s = PS * (y - x) + contrib (pc th') - contrib (pc th) ->
+  pc_ok (pc th') ->
+  used' = c0 + PS * zsum (lens ss') + tsum (lset (thr s) t th') /\
+  forall u thu, In (u, thu) (lset (thr s) t th') -> pc_ok (pc thu).
 Proof.
-  intros Hnd Hth (HA & HB) Hx HL Hcov Hu Hc. split.
-  - rewrite (tsum_lset (lens (shs s)) (lens ss') _ _ _ th' Hnd Hth).
-    + rewrite HL at 1. rewrite (zsum_set_nth _ _ _ _ Hx). lia.
-    + intros u thu Hin Hne. rewrite HL. apply frame_out_of_window. eapply covered_false; eauto.
-  - intros u thu Hin. apply (In_lset_strong _ _ _ _ _ Hnd Hth) in Hin.
-    destruct Hin as [Hin|(Hin & Hne)]; [inversion Hin; subst; exact Hc|]. cbn [fst] in Hne.
-    rewrite HL. apply frame_out_of_window; [eapply covered_false; eauto | eapply HB; eauto].
+  intros Hth (HA & HB) Hx HL Hu Hc. split.
+  - rewrite (tsum_lset _ _ _ th' Hth). rewrite HL, (zsum_set_nth _ _ _ _ Hx). lia.
+  - intros u thu Hin. apply In_lset in Hin. destruct Hin as [Hin|Hin]; [inversion Hin; subst; exact Hc | eapply HB; eauto].
 Qed.
-
-Ltac flags_false Hl Hr :=
-  cbn [gleak grace upd upd_th upd_sh mark_race set_glast set_gleak set_alock] in Hl, Hr;
-  try discriminate Hl;
-  try (apply orb_false_elim in Hr; destruct Hr as (Hr & Hcov)).
 
 Ltac zlia := unfold PS, PAGE_SIZE in *; lia.
 
-Lemma acct_step c0 t s s' :
-  inv1 s -> NoDup (map fst (thr s)) -> 0 <= c0 -> acct c0 s -> step t s = Some s' -> acct c0 s'.
+Lemma acct_step c0 t s s' : inv1 s -> 0 <= c0 -> acct c0 s -> step t s = Some s' -> acct c0 s'.
 Proof.
-  intros Hinv Hnd Hc0 Hacct H. unfold step in H.
+  intros Hinv Hc0 Hb H. unfold step in H.
   destruct (lget (thr s) t) as [th|] eqn:Hth; [|discriminate].
   assert (Ht := proj2 Hinv t th Hth).
   assert (Hso := proj1 Hinv).
@@ -251,12 +174,9 @@ Proof.
   all: try (unfold start_op in H).
   all: brk H.
   all: try (inversion H; subst s'; clear H).
-  all: try match goal with |- context [match ents ?x with _ => _ end] => destruct (ents x) eqn:? end.
-  all: intros Hl' Hr'; flags_false Hl' Hr'.
-  all: assert (Hb := Hacct Hl' Hr').
-  all: unfold acct_body; cbn [used shs thr upd upd_th upd_sh mark_race set_glast set_gleak set_alock].
+  all: unfold acct; cbn [used shs thr upd upd_th upd_sh set_glast set_alock].
   (* nothing that matters to the accounting changes *)
-  all: try (solve [eapply acct_same; [exact Hnd | exact Hth | exact Hb | reflexivity | rewrite Hpc; cbn [pc set_pc finish finish_hold contrib cont_charge]; lia | cbn [pc set_pc finish finish_hold clear_ok]; exact I]]).
+  all: try (solve [eapply acct_same; [exact Hth | exact Hb | reflexivity | rewrite Hpc; cbn [pc set_pc finish finish_hold contrib cont_charge]; lia | cbn [pc set_pc finish finish_hold pc_ok]; exact I]]).
   (* facts about the shard being touched *)
   all: try match goal with
        | Hn : nth_error (shs _) ?i = Some ?sh |- _ =>
@@ -284,106 +204,70 @@ Proof.
        end.
   (* the shard is replaced by one of the same length *)
   all: try (solve [eapply acct_same;
-                   [exact Hnd | exact Hth | exact Hb
+                   [exact Hth | exact Hb
                    | eapply lens_same; [eassumption | first [reflexivity | exact Hlen' | cbn [set_ents ents]; apply set_nth_length]]
-                   | rewrite Hpc; cbn [pc set_pc finish finish_hold contrib cont_charge]; lia
-                   | cbn [pc set_pc finish finish_hold clear_ok]; first [exact I | unfold PS; cbv; discriminate]]]).
-  all: assert (Hbt := proj2 Hb t th (lget_In _ _ _ Hth)); rewrite Hpc in Hbt; cbn [clear_ok] in Hbt.
-  all: assert (HL : length (lens (shs s)) = NSH) by (rewrite lens_length; exact (proj1 Hso)).
-  - (* clear() starts *)
-    eapply acct_same; [exact Hnd | exact Hth | exact Hb | reflexivity | rewrite Hpc; cbn [pc set_pc contrib]; zlia | reflexivity].
-  - (* the budget loop evicts a page *)
-    match goal with Er : evict_remove ?sa = ERemoved ?sb |- _ =>
-      eapply acct_len with (j := shard_of (gk g)) (x := Z.of_nat (length (ents sa))) (y := Z.of_nat (length (ents sb)));
-      [exact Hnd | exact Hth | exact Hb | apply lens_nth; eassumption | apply lens_set_nth | exact Hcov
+                   | rewrite Hpc; cbn [pc set_pc finish finish_hold contrib cont_charge]; zlia
+                   | cbn [pc set_pc finish finish_hold pc_ok]; first [exact I | zlia]]]).
+  all: assert (Hbt := proj2 Hb t th (lget_In _ _ _ Hth)); rewrite Hpc in Hbt; cbn [pc_ok] in Hbt.
+  (* evictions inside get_or_insert *)
+  all: try match goal with Er : evict_remove ?sa = ERemoved ?sb |- _ =>
+      solve [eapply acct_len with (j := shard_of (gk g)) (x := Z.of_nat (length (ents sa))) (y := Z.of_nat (length (ents sb)));
+      [exact Hth | exact Hb | apply lens_nth; eassumption | apply lens_set_nth
       | rewrite Hpc; cbn [pc set_pc contrib cont_charge]; zlia
-      | cbn [pc set_pc clear_ok]; zlia] end.
+      | cbn [pc set_pc pc_ok]; zlia]] end.
   - (* allocate: the compare-exchange succeeds *)
     apply Z.eqb_eq in E.
-    eapply acct_same; [exact Hnd | exact Hth | exact Hb | reflexivity | rewrite Hpc; cbn [pc set_pc contrib]; zlia | exact I].
-  - (* the full shard evicts a page *)
-    match goal with Er : evict_remove ?sa = ERemoved ?sb |- _ =>
-      eapply acct_len with (j := shard_of (gk g)) (x := Z.of_nat (length (ents sa))) (y := Z.of_nat (length (ents sb)));
-      [exact Hnd | exact Hth | exact Hb | apply lens_nth; eassumption | apply lens_set_nth | exact Hcov
-      | rewrite Hpc; cbn [pc set_pc contrib cont_charge]; zlia
-      | cbn [pc set_pc clear_ok]; zlia] end.
-  - (* the full shard has nothing to evict: the charge is given back *)
-    eapply acct_same; [exact Hnd | exact Hth | exact Hb | eapply lens_same; [eassumption | exact Hlen']
-      | rewrite Hpc; cbn [pc set_pc contrib cont_charge]; zlia | cbn [pc set_pc clear_ok]; zlia].
+    eapply acct_same; [exact Hth | exact Hb | reflexivity | rewrite Hpc; cbn [pc set_pc contrib]; zlia | exact I].
   - (* insert *)
     match goal with En : nth_error (shs _) _ = Some ?sa |- _ =>
       eapply acct_len with (j := shard_of (gk g)) (x := Z.of_nat (length (ents sa))) (y := Z.of_nat (length (ents sa)) + 1);
-      [exact Hnd | exact Hth | exact Hb | apply lens_nth; eassumption
-      | rewrite lens_set_nth; cbn [set_wl insert ents]; rewrite app_length; cbn [length]; f_equal; zlia
-      | exact Hcov
+      [exact Hth | exact Hb | apply lens_nth; eassumption
+      | rewrite lens_set_nth; cbn [set_wl insert ents]; rewrite app_length; cbn [length]; f_equal; lia
       | rewrite Hpc; cbn [pc finish_hold contrib]; zlia
       | exact I] end.
+  - (* init failed: the charge is released *)
+    eapply acct_same; [exact Hth | exact Hb | reflexivity | rewrite Hpc; cbn [pc set_pc contrib cont_charge]; zlia | cbn [pc set_pc pc_ok]; zlia].
   - (* release: load *)
-    eapply acct_same; [exact Hnd | exact Hth | exact Hb | reflexivity | rewrite Hpc; cbn [pc set_pc contrib]; zlia | exact Hbt].
+    eapply acct_same; [exact Hth | exact Hb | reflexivity | rewrite Hpc; cbn [pc set_pc contrib]; lia | exact Hbt].
   - (* release: the compare-exchange succeeds; nothing saturates *)
     apply Z.eqb_eq in E.
-    assert (Hnn : forall u thu, In (u, thu) (thr s) -> 0 <= contrib (lens (shs s)) (pc thu))
+    assert (Hnn : forall u thu, In (u, thu) (thr s) -> 0 <= contrib (pc thu))
       by (intros u thu Hin; apply contrib_nonneg; exact (proj2 Hb u thu Hin)).
-    assert (Hge := tsum_ge _ _ _ _ Hnn Hth). rewrite Hpc in Hge. cbn [contrib] in Hge.
+    assert (Hge := tsum_ge _ _ _ Hnn Hth). rewrite Hpc in Hge. cbn [contrib] in Hge.
     assert (Hz : 0 <= zsum (lens (shs s))) by (apply zsum_nonneg; intros x Hx; eapply lens_nonneg; eauto).
     assert (HA := proj1 Hb). assert (P := PS_pos).
-    assert (Hcc : 0 <= cont_charge c) by (destruct c; cbn [cont_charge]; zlia).
+    assert (Hcc : 0 <= cont_charge c) by (destruct c; cbn [cont_charge]; lia).
     assert (Hsat : sat_sub cur n = cur - n) by (unfold sat_sub; nia).
     rewrite Hsat.
     destruct c; cbn [resume];
-      (eapply acct_same; [exact Hnd | exact Hth | exact Hb | reflexivity
-                         | rewrite Hpc; cbn [pc set_pc finish contrib cont_charge]; zlia | exact I]).
+      (eapply acct_same; [exact Hth | exact Hb | reflexivity
+                         | rewrite Hpc; cbn [pc set_pc finish contrib cont_charge]; lia | exact I]).
   - (* release: the compare-exchange fails *)
-    eapply acct_same; [exact Hnd | exact Hth | exact Hb | reflexivity | rewrite Hpc; cbn [pc set_pc contrib]; zlia | exact Hbt].
-  - (* len() done *)
-    apply Nat.leb_le in E.
-    eapply acct_same; [exact Hnd | exact Hth | exact Hb | reflexivity | rewrite Hpc; cbn [pc set_pc contrib]; zlia |].
-    cbn [pc set_pc clear_ok]. rewrite Hbt. unfold len_upto. rewrite firstn_all2 by lia. reflexivity.
-  - (* len(): next shard *)
-    eapply acct_same; [exact Hnd | exact Hth | exact Hb | reflexivity | rewrite Hpc; cbn [pc set_pc contrib]; zlia |].
-    cbn [pc set_pc clear_ok]. unfold len_upto. rewrite (firstn_S_sum _ _ _ (lens_nth _ _ _ E0)). rewrite Hbt. reflexivity.
-  - (* past site 502 *)
-    eapply acct_same; [exact Hnd | exact Hth | exact Hb | reflexivity
-      | rewrite Hpc; cbn [pc set_pc contrib]; unfold len_from; cbn [skipn]; rewrite Hbt; zlia
-      | cbn [pc set_pc clear_ok]; unfold len_from; cbn [skipn]; zlia].
+    eapply acct_same; [exact Hth | exact Hb | reflexivity | rewrite Hpc; cbn [pc set_pc contrib]; lia | exact Hbt].
+  - (* clear(): past site 502 *)
+    eapply acct_same; [exact Hth | exact Hb | reflexivity | rewrite Hpc; cbn [pc set_pc contrib]; lia | cbn [pc set_pc pc_ok]; lia].
   - (* all shards cleared, nothing to release *)
-    apply Nat.leb_le in E. apply Z.eqb_eq in E0.
-    eapply acct_same; [exact Hnd | exact Hth | exact Hb | reflexivity | | exact I].
-    rewrite Hpc; cbn [pc finish contrib]. unfold len_from. rewrite skipn_all2 by lia. cbn [zsum fold_right]. zlia.
-  - (* all shards cleared, release what len() counted *)
-    apply Nat.leb_le in E.
-    assert (Q : len_from (lens (shs s)) i = 0) by (unfold len_from; rewrite skipn_all2 by lia; reflexivity).
-    eapply acct_same; [exact Hnd | exact Hth | exact Hb | reflexivity
-      | rewrite Hpc; cbn [pc set_pc contrib cont_charge]; rewrite Q; zlia
-      | cbn [pc set_pc clear_ok]; rewrite Q in Hbt; assert (P := PS_pos); unfold PS in P; nia].
-  - (* clear an empty shard *)
-    match goal with En : nth_error (shs _) _ = Some ?x, Hem : ents ?x = [] |- _ =>
-      assert (Hx := lens_nth _ _ _ En); rewrite Hem in Hx; cbn [length] in Hx;
-      assert (Q := skipn_S_sum _ _ _ Hx);
-      eapply acct_same; [exact Hnd | exact Hth | exact Hb | eapply lens_same; [eassumption | rewrite Hem; reflexivity]
-        | rewrite Hpc; cbn [pc set_pc contrib]; unfold len_from; rewrite Q; change (Z.of_nat 0) with 0; zlia
-        | cbn [pc set_pc clear_ok]; unfold len_from in *; rewrite Q in Hbt; change (Z.of_nat 0) with 0 in Hbt; zlia] end.
-  - (* clear a non-empty shard *)
+    apply Z.eqb_eq in E0.
+    eapply acct_same; [exact Hth | exact Hb | reflexivity | rewrite Hpc; cbn [pc finish contrib]; zlia | exact I].
+  - (* all shards cleared, release what was removed *)
+    eapply acct_same; [exact Hth | exact Hb | reflexivity
+      | rewrite Hpc; cbn [pc set_pc contrib cont_charge]; zlia
+      | cbn [pc set_pc pc_ok]; zlia].
+  - (* clear one shard: its pages move from "resident" to "removed, to be released" *)
     match goal with En : nth_error (shs _) _ = Some ?sa |- _ =>
-      assert (Hx := lens_nth _ _ _ En);
-      assert (Q := skipn_S_sum _ _ _ Hx);
-      assert (Q2 : len_from (set_nth (lens (shs s)) i 0) (S i) = len_from (lens (shs s)) (S i))
-        by (unfold len_from; rewrite skipn_set_nth_lt by lia; reflexivity);
       eapply acct_len with (j := i) (x := Z.of_nat (length (ents sa))) (y := 0);
-      [exact Hnd | exact Hth | exact Hb | exact Hx | rewrite lens_set_nth; reflexivity | exact Hcov
-      | rewrite Hpc; cbn [pc set_pc contrib]; rewrite lens_set_nth; cbn [clear_shard ents length]; change (Z.of_nat 0) with 0;
-        rewrite Q2; unfold len_from in *; rewrite Q; zlia
-      | cbn [pc set_pc clear_ok]; rewrite lens_set_nth; cbn [clear_shard ents length]; change (Z.of_nat 0) with 0;
-        rewrite Q2; unfold len_from in *; rewrite Q in Hbt; zlia] end.
+      [exact Hth | exact Hb | apply lens_nth; eassumption | rewrite lens_set_nth; reflexivity
+      | rewrite Hpc; cbn [pc set_pc contrib]; zlia
+      | cbn [pc set_pc pc_ok]; lia] end.
   - (* evict_all_unpinned removes a page *)
     match goal with Er : remove ?sa ?n = Some ?sb |- _ =>
       destruct (remove_wf _ _ _ Hwf Er) as (_ & Hl1 & _);
       destruct (proj2 Htodo n (or_introl eq_refl)) as (e & He & _);
       assert (Hpos : (n < length (ents sa))%nat) by (apply nth_error_Some; congruence);
       eapply acct_len with (j := i) (x := Z.of_nat (length (ents sa))) (y := Z.of_nat (length (ents sb)));
-      [exact Hnd | exact Hth | exact Hb | apply lens_nth; eassumption | apply lens_set_nth | exact Hcov
+      [exact Hth | exact Hb | apply lens_nth; eassumption | apply lens_set_nth
       | rewrite Hpc; cbn [pc set_pc contrib cont_charge]; zlia
-      | cbn [pc set_pc clear_ok]; zlia] end.
+      | cbn [pc set_pc pc_ok]; zlia] end.
 Qed.
 
 (* ------------------------------------------------------------------ all schedules *)
@@ -399,48 +283,39 @@ Proof. intros H. apply in_map_iff in H. destruct H as ([u p] & Heq & _). cbn in 
 
 Lemma acct_init total limit c0 o progs : acct c0 (init_st total limit c0 o progs).
 Proof.
-  intros _ _. unfold acct_body, init_st; cbn [used shs thr]. split.
+  unfold acct, init_st; cbn [used shs thr]. split.
   - rewrite zsum_lens_init. rewrite tsum_idle by (intros u thu Hin; eapply init_thr_In'; eauto). lia.
   - intros u thu Hin. rewrite (init_thr_In' _ _ _ Hin). exact I.
 Qed.
 
-Lemma thr_keys_step t s s' : step t s = Some s' -> map fst (thr s') = map fst (thr s).
-Proof.
-  intros H. unfold step in H.
-  destruct (lget (thr s) t) as [th|] eqn:Hth; [|discriminate].
-  destruct (pc th) eqn:Hpc.
-  all: try (unfold start_op in H).
-  all: brk H.
-  all: try (inversion H; subst s'; clear H).
-  all: try match goal with |- context [match ents ?x with _ => _ end] => destruct (ents x) eqn:? end.
-  all: cbn [thr upd upd_th upd_sh mark_race set_glast set_gleak set_alock]; eapply map_fst_lset; eassumption.
-Qed.
-
 Theorem acct_run total limit c0 o progs sched :
-  (NSH <= total)%nat -> NoDup (map fst progs) -> 0 <= c0 ->
-  acct c0 (run step sched (init_st total limit c0 o progs)).
+  (NSH <= total)%nat -> 0 <= c0 -> acct c0 (run step sched (init_st total limit c0 o progs)).
 Proof.
-  intros Htot Hnd Hc0.
-  assert (H : (fun s => inv1 s /\ NoDup (map fst (thr s)) /\ acct c0 s) (run step sched (init_st total limit c0 o progs))).
+  intros Htot Hc0.
+  assert (H : (fun s => inv1 s /\ acct c0 s) (run step sched (init_st total limit c0 o progs))).
   { apply invariant_rule.
-    - split; [apply inv1_init; assumption|]. split; [|apply acct_init].
-      cbn [init_st thr]. rewrite map_map. cbn [fst]. exact Hnd.
-    - intros t s s' (A & B & C) Hst. split; [eapply inv1_step; eauto|]. split.
-      + rewrite (thr_keys_step _ _ _ Hst). exact B.
-      + eapply acct_step; eauto. }
+    - split; [apply inv1_init; assumption | apply acct_init].
+    - intros t s s' (A & B) Hst. split; [eapply inv1_step; eauto | eapply acct_step; eauto]. }
   apply H.
 Qed.
 
 (* no operation in progress: the counter is exactly what is resident (plus what was there before) *)
 Theorem budget_accounting_l total limit c0 o progs sched :
-  (NSH <= total)%nat -> NoDup (map fst progs) -> 0 <= c0 ->
+  (NSH <= total)%nat -> 0 <= c0 ->
   let s := run step sched (init_st total limit c0 o progs) in
-  gleak s = false -> grace s = false -> quiescent s -> used s = c0 + PAGE_SIZE * total_len s.
+  quiescent s -> used s = c0 + PAGE_SIZE * total_len s.
 Proof.
-  intros Htot Hnd Hc0 s Hl Hr Hq.
-  destruct (acct_run total limit c0 o progs sched Htot Hnd Hc0 Hl Hr) as (HA & _).
+  intros Htot Hc0 s Hq.
+  destruct (acct_run total limit c0 o progs sched Htot Hc0) as (HA & _).
   fold s in HA. rewrite HA, total_len_lens. rewrite tsum_idle by exact Hq. unfold PS. lia.
 Qed.
+
+(* in particular: emptied and idle means back to the initial value *)
+Corollary budget_zero_when_emptied_l total limit c0 o progs sched :
+  (NSH <= total)%nat -> 0 <= c0 ->
+  let s := run step sched (init_st total limit c0 o progs) in
+  quiescent s -> total_len s = 0 -> used s = c0.
+Proof. intros Htot Hc0 s Hq Hz. assert (H := budget_accounting_l total limit c0 o progs sched Htot Hc0 Hq). fold s in H. rewrite H, Hz. lia. Qed.
 
 Lemma idle_b_quiescent s : idle_b s = true -> quiescent s.
 Proof.
@@ -448,23 +323,16 @@ Proof.
   destruct (pc th); try discriminate. reflexivity.
 Qed.
 
-(* the two ways in which the faithful model breaks the accounting *)
 Definition sched_of (l : list (nat * nat)) : list nat := flat_map (fun p => repeat (fst p) (snd p)) l.
 
-Theorem budget_refuted_init_failure_l :
-  exists progs sched,
-    let s := run step sched (init_st 64 4194304 0 0 progs) in
-    idle_b s = true /\ gleak s = true /\ grace s = false /\ total_len s = 0 /\ used s = PAGE_SIZE.
-Proof.
-  exists [(0%nat, [OGetIns 0 false 11])], (sched_of [(0%nat, 12%nat)]). vm_compute. repeat split.
-Qed.
+(* the two schedules on which the code before the repairs lost a page of budget now come out exact *)
+Lemma repaired_init_failure_l :
+  let s := run step (sched_of [(0%nat, 20%nat)]) (init_st 64 4194304 0 0 [(0%nat, [OGetIns 0 false 11])]) in
+  idle_b s = true /\ total_len s = 0 /\ used s = 0.
+Proof. vm_compute. repeat split. Qed.
 
-Theorem budget_refuted_clear_race_l :
-  exists progs sched,
-    let s := run step sched (init_st 64 4194304 0 0 progs) in
-    idle_b s = true /\ gleak s = false /\ grace s = true /\ total_len s = 0 /\ used s = PAGE_SIZE.
-Proof.
-  exists [(0%nat, [OGetIns 0 true 1; OUnpin 0; OClear]); (1%nat, [OGetIns 1 true 2])],
-         (sched_of [(0%nat, 77%nat); (1%nat, 12%nat); (0%nat, 80%nat)]).
-  vm_compute. repeat split.
-Qed.
+Lemma repaired_clear_race_l :
+  let s := run step (sched_of [(0%nat, 14%nat); (1%nat, 14%nat); (0%nat, 80%nat)])
+             (init_st 64 4194304 0 0 [(0%nat, [OGetIns 0 true 1; OUnpin 0; OClear]); (1%nat, [OGetIns 1 true 2])]) in
+  idle_b s = true /\ total_len s = 0 /\ used s = 0.
+Proof. vm_compute. repeat split. Qed.
